@@ -1,12 +1,15 @@
 package sim
 
 import (
+	"bytes"
 	"context"
 	"database/sql"
 	"encoding/json"
 	"errors"
 	"fmt"
 	"runtime"
+	"runtime/pprof"
+	"sort"
 	"strings"
 	"sync"
 	"sync/atomic"
@@ -89,6 +92,7 @@ func runC20(t *testing.T, seed uint64, planJSON []byte, tier string) (res *Resul
 		sim.MaxStep = 5000000
 		sim.MaxTime = 100000 * time.Hour
 		w.Hook.park = false
+		sim.Batch, sim.BatchWindow = true, 20*time.Millisecond
 		w.CreateUndoLog(atSchema)
 		mk := func(name string, n int) {
 			w.Srv.CreateTable(atSchema, name, []*simdb.Column{
@@ -217,12 +221,35 @@ func runC20(t *testing.T, seed uint64, planJSON []byte, tier string) (res *Resul
 		}
 		mkRows("t_at")
 		mkRows("t_xa")
+		profile := func() map[string]int {
+			// goroutines by the function that created them
+			var buf bytes.Buffer
+			pprof.Lookup("goroutine").WriteTo(&buf, 2)
+			out := map[string]int{}
+			for _, blk := range strings.Split(buf.String(), "\n\n") {
+				key := "(root)"
+				for _, l := range strings.Split(blk, "\n") {
+					if strings.HasPrefix(l, "created by ") {
+						key = strings.TrimPrefix(l, "created by ")
+						if k := strings.Index(key, " in goroutine"); k >= 0 {
+							key = key[:k]
+						}
+					}
+				}
+				if strings.TrimSpace(blk) != "" {
+					out[key]++
+				}
+			}
+			return out
+		}
+		prof0 := profile()
 		g0 := runtime.NumGoroutine()
 		// the batch
 		var mu sync.Mutex
 		wantAT := map[int]int{}
 		wantXA := map[int]int{}
 		var errs []string
+		firstFailKind := ""
 		var finished int32
 		kinds := map[string]int{}
 		for wi := 1; wi <= plan.Workers; wi++ {
@@ -239,6 +266,9 @@ func runC20(t *testing.T, seed uint64, planJSON []byte, tier string) (res *Resul
 					kinds[kind]++
 					if err != nil {
 						errs = append(errs, fmt.Sprintf("worker %d tx %d (%s): %v", wi, k, kind, err))
+						if firstFailKind == "" || kind < firstFailKind {
+							firstFailKind = kind
+						}
 					}
 					if committed {
 						switch kind {
@@ -253,7 +283,9 @@ func runC20(t *testing.T, seed uint64, planJSON []byte, tier string) (res *Resul
 			}()
 		}
 		t0 := sim.Now()
-		sim.Run(func() bool { return int(atomic.LoadInt32(&finished)) == plan.Workers || sim.Now()-t0 > 1800*time.Second })
+		sim.Run(func() bool {
+			return int(atomic.LoadInt32(&finished)) == plan.Workers || sim.Now()-t0 > 1800*time.Second
+		})
 		if int(atomic.LoadInt32(&finished)) != plan.Workers {
 			sim.Violate("C20", "termination", "transaction-stuck", "%d of %d workers did not finish their %d transactions within 1800 simulated seconds", plan.Workers-int(finished), plan.Workers, plan.PerWork)
 			finishResult(res, sim)
@@ -263,7 +295,7 @@ func runC20(t *testing.T, seed uint64, planJSON []byte, tier string) (res *Resul
 		mu.Lock()
 		defer mu.Unlock()
 		if len(errs) > 0 {
-			sim.Violate("C20", "every-transaction-completes", "transaction-failed", "%d transaction(s) failed although no fault was injected and the workers use disjoint rows; first: %s", len(errs), errs[0])
+			sim.Violate("C20", "every-transaction-completes", "transaction-failed-"+firstFailKind, "%d transaction(s) failed although no fault was injected and the workers use disjoint rows; first: %s", len(errs), errs[0])
 		}
 		// data
 		snap := w.Srv.Snapshot()
@@ -298,9 +330,21 @@ func runC20(t *testing.T, seed uint64, planJSON []byte, tier string) (res *Resul
 		if n := w.Srv.OpenTxnCount(); n > 0 {
 			sim.Violate("C20", "no-connection-lost", "transaction-left-open", "%d local transaction(s) still open after the batch", n)
 		}
-		g1 := runtime.NumGoroutine()
+		// the transport's task pool (dubbogo/gost) starts its workers on demand
+		// up to a fixed size and keeps them: bounded, not a leak
+		poolWorker := "github.com/dubbogo/gost/sync.(*taskPoolSimple)"
+		prof1 := profile()
+		g0 -= 0
+		g1 := runtime.NumGoroutine() - (sumPrefix(prof1, poolWorker) - sumPrefix(prof0, poolWorker))
 		if g1 > g0+2 {
-			sim.Violate("C20", "no-goroutine-lost", "goroutines-grew", "goroutines before the batch: %d, after it settled: %d", g0, g1)
+			var heads []string
+			for k, n := range prof1 {
+				if n > prof0[k] {
+					heads = append(heads, fmt.Sprintf("+%d %s", n-prof0[k], k))
+				}
+			}
+			sort.Strings(heads)
+			sim.Violate("C20", "no-goroutine-lost", "goroutines-grew", "goroutines before the batch: %d, after it settled: %d; grown: %s", g0, g1, strings.Join(heads, "; "))
 		}
 		sim.State(fmt.Sprintf("!c20 workers=%d per=%d idle=%d open=%d kinds=%d", plan.Workers, plan.PerWork, plan.MaxIdle, plan.MaxOpen, len(kinds)))
 		res.Episodes = plan.Workers * plan.PerWork
@@ -309,6 +353,16 @@ func runC20(t *testing.T, seed uint64, planJSON []byte, tier string) (res *Resul
 	res.Plan, _ = json.Marshal(plan)
 	res.Components = atComponents
 	return res
+}
+
+func sumPrefix(m map[string]int, prefix string) int {
+	n := 0
+	for k, v := range m {
+		if strings.HasPrefix(k, prefix) {
+			n += v
+		}
+	}
+	return n
 }
 
 func init() { engines["C20"] = runC20 }
